@@ -5,7 +5,7 @@ bounded stores, bounded copies on the input path, EOF -> clean exit, the line bu
 exactly once with no later use, no use of a request after a call that may retire it, junk
 lines inert.  Not decided: memory safety at large, termination, chunking independence."""
 from ..facts import AnalysisBroken
-from ..model import sx, walk, is_var, const_of, root_var, vars_in
+from ..model import sx, walk, is_var, const_of, root_var, vars_in, on_path
 from .. import rules, bnd, uar
 from ..report import Remap
 
@@ -591,6 +591,72 @@ def input_buffer(P, R):
     R.floor('C08.WMC.1', 3, 'uses of the input evbuffer')
 
 
+def slot_use_after_release(P, R, rule='C08.UAF.2'):
+    """A service record is not touched after the call that may free it: a function that releases an element of the
+    service table (frees `table.vec[i]`, directly or through a local) is a may-free for every local pointer its caller
+    loaded from that table; behind the call such a local is not dereferenced any more (not even for a log line)."""
+    def slot_expr(e):
+        return isinstance(e, dict) and e.get('k') == 'idx' and on_path(e, 'vec') and root_var(e) is not None and root_var(e).get('sc') in ('file_static', 'global')
+    freers = {}
+    for f in P.fns.values():
+        if not f.unit.startswith('modules/'):
+            continue
+        loc = {}
+        for s in f.sites():
+            ev = s.ev
+            val = ev.get('init') if ev['k'] == 'decl' else ev.get('rhs') if ev['k'] == 'store' and ev.get('op') == '=' else None
+            tgt = ev.get('var') if ev['k'] == 'decl' else (ev['lhs']['name'] if ev['k'] == 'store' and is_var(ev.get('lhs')) else None)
+            if tgt and slot_expr(val):
+                loc[tgt] = sx(root_var(val))
+        for s in f.calls():
+            if s.ev.get('callee') in ('xfree', 'free') and s.ev['args']:
+                a = s.ev['args'][0]
+                if slot_expr(a):
+                    freers[f.key] = sx(root_var(a))
+                elif is_var(a) and a['name'] in loc:
+                    freers[f.key] = loc[a['name']]
+    n = 0
+    for f in P.fns.values():
+        if not f.unit.startswith('modules/'):
+            continue
+        loc = {}
+        for s in f.sites():
+            ev = s.ev
+            val = ev.get('init') if ev['k'] == 'decl' else ev.get('rhs') if ev['k'] == 'store' and ev.get('op') == '=' else None
+            tgt = ev.get('var') if ev['k'] == 'decl' else (ev['lhs']['name'] if ev['k'] == 'store' and is_var(ev.get('lhs')) else None)
+            if tgt and slot_expr(val):
+                loc[tgt] = sx(root_var(val))
+        if not loc:
+            continue
+        for s in f.calls():
+            ts = [t for t in P.callees(s, False) if t.key in freers and t.key != f.key]
+            if not ts:
+                continue
+            table = freers[ts[0].key]
+            vs = [v for v, tb in loc.items() if tb == table]
+            uses = []
+            after = f.reach([e.dst for e in f.out[s.bid]])
+            for t in f.sites():
+                if (t.bid == s.bid and t.idx > s.idx) or (t.bid in after and t.bid != s.bid):
+                    if t.ev['k'] == 'store' and is_var(t.ev.get('lhs')) and t.ev['lhs']['name'] in vs:
+                        continue
+                    for ex in rules.event_exprs(t.ev):
+                        for v in vs:
+                            if rules.derefs_of(ex, v):
+                                uses.append((t, v))
+            # a re-load of the local from the table before the use makes it fresh again: only flag uses not preceded by one
+            real = []
+            for t, v in uses:
+                reload_ = [u for u in f.stores() if u.ev['k'] == 'store' and is_var(u.ev.get('lhs'), v) and slot_expr(u.ev.get('rhs'))]
+                if any(f.path_avoiding(s, lambda q, u=u: q.key == u.key, target=t.bid) is None for u in reload_):
+                    continue
+                real.append((t, v))
+            n += 1
+            R.ob(rule, not real, s, 'behind %s(...), which may free an element of %s, no pointer loaded from that table is dereferenced%s' % (ts[0].name, table, (' (%s at %s)' % (real[0][1], real[0][0].loc)) if real else ''),
+                 key='slot-uaf:%s' % f.name)
+    R.floor(rule, 1, 'calls that may free a service record')
+
+
 def run(P, R, tier):
     input_buffer(P, R)
     nullarg(P, R)
@@ -606,6 +672,15 @@ def run(P, R, tier):
     line_splitting(P, R)
     lookup_results_checked(P, R)
     stats_are_write_only(P, R)
+    slot_use_after_release(P, R)
+    # the mode prefix of a PASS text is scanned with a pointer that never steps past the terminator
+    from .c14 import scanner_typestate
+    cp = P.fn('iauth_xquery_check_password')
+    if cp is not None:
+        pws = sorted({s.ev['lhs']['name'] for s in cp.stores() if s.ev['k'] == 'store' and s.ev.get('op') == '++' and is_var(s.ev.get('lhs')) and 'char' in s.ev['lhs'].get('t', '') and '*' in s.ev['lhs'].get('t', '')})
+        for pv in pws:
+            scanner_typestate(cp, lambda e, pv=pv: is_var(e, pv), 'C08.BND.4', R, 'PASS mode scanner (%s)' % pv, exit_check=False)
+        R.floor('C08.BND.4', 1)
     # a timer that outlives its request fires on freed memory: the timer lives exactly as long as the request
     from . import c10
     cl = c10.cleanup_fn(P, Remap(R, {'C10.MPT.1': 'C08.TMR.1', 'C10.WIRE.1': 'C08.TMR.1'}))
